@@ -19,6 +19,22 @@ struct Shared {
     sems: Vec<Arc<Semaphore>>,
     mutexes: Vec<Arc<Mutex<i64>>>,
     rwlocks: Vec<Arc<RwLock<i64>>>,
+    aborts: std::sync::Mutex<Vec<Option<shuttle::future::AbortHandle>>>,
+}
+
+/// Logs that the task's future was dropped before its body finished (abort): declared first in the body, so it is
+/// dropped after everything the body owned (pending operations, permits, guards).
+struct CancelLog {
+    ix: usize,
+    done: bool,
+}
+
+impl Drop for CancelLog {
+    fn drop(&mut self) {
+        if !self.done && !std::thread::panicking() {
+            log(json!({"e":"cancel","t":self.ix}));
+        }
+    }
 }
 
 /// What a task owns when it starts.
@@ -39,6 +55,7 @@ fn ret(t: usize, pc: usize, k: &str, r: i64) {
 }
 
 async fn body(sh: Arc<Shared>, ix: usize, ops: Vec<Value>, mut h: Handles) {
+    let mut cl = CancelLog { ix, done: false };
     let mut permits: Vec<Option<shuttle_tokio_impl_inner::sync::OwnedSemaphorePermit>> = (0..sh.sems.len()).map(|_| None).collect();
     let mut guards: Vec<Option<shuttle_tokio_impl_inner::sync::OwnedMutexGuard<i64>>> = (0..sh.mutexes.len()).map(|_| None).collect();
     let mut rguards: Vec<Option<shuttle_tokio_impl_inner::sync::OwnedRwLockReadGuard<i64>>> = (0..sh.rwlocks.len()).map(|_| None).collect();
@@ -276,6 +293,12 @@ async fn body(sh: Arc<Shared>, ix: usize, ops: Vec<Value>, mut h: Handles) {
                 drop(wguards[ou].take());
                 0
             }
+            "abort" => {
+                if let Some(a) = sh.aborts.lock().unwrap()[v as usize].as_ref() {
+                    a.abort();
+                }
+                0
+            }
             "yield" => {
                 shuttle::future::yield_now().await;
                 0
@@ -359,6 +382,7 @@ async fn body(sh: Arc<Shared>, ix: usize, ops: Vec<Value>, mut h: Handles) {
         }
     }
     log(json!({"e":"fin","t":ix}));
+    cl.done = true;
 }
 
 fn ids(v: &Value, key: &str) -> Vec<usize> {
@@ -380,6 +404,7 @@ pub fn run_main(p: Arc<Value>) {
         sems: sems.iter().map(|&k| Arc::new(Semaphore::new(k))).collect(),
         mutexes: (0..nmx).map(|_| Arc::new(Mutex::new(0))).collect(),
         rwlocks: (0..nrwl).map(|_| Arc::new(RwLock::new(0))).collect(),
+        aborts: std::sync::Mutex::new((0..n).map(|_| None).collect()),
     });
     let mut hs: Vec<Handles> = (0..n)
         .map(|_| Handles {
@@ -448,7 +473,9 @@ pub fn run_main(p: Arc<Value>) {
         if tasks[t]["kind"].as_str().unwrap_or("future") == "thread" {
             threads.push(shuttle::thread::spawn(move || shuttle::future::block_on(body(sh2, t, ops, h))));
         } else {
-            futs.push(shuttle::future::spawn(body(sh2, t, ops, h)));
+            let jh = shuttle::future::spawn(body(sh2, t, ops, h));
+            sh.aborts.lock().unwrap()[t] = Some(jh.abort_handle());
+            futs.push(jh);
         }
     }
     let ops0 = tasks[0]["ops"].as_array().unwrap().clone();
@@ -458,6 +485,7 @@ pub fn run_main(p: Arc<Value>) {
         th.join().unwrap();
     }
     for f in futs {
-        shuttle::future::block_on(f).unwrap();
+        // (an aborted task answers Cancelled)
+        let _ = shuttle::future::block_on(f);
     }
 }
